@@ -54,7 +54,20 @@ type lHist struct {
 func lScenario(r *Rng, id int) lHist {
 	h := lHist{ID: id}
 	add := func(o lOp) { h.Ops = append(h.Ops, o) }
-	switch (id / 4) % 4 {
+	switch (id / 4) % 5 {
+	case 4:
+		// ONLY short positions are open (their custody is base currency), then the pool creator, who holds almost all shares,
+		// leaves with most of the pool in proportion: the exit must be refused once the reserve would fall below the custody
+		for j := 0; j < 1+r.Intn(2); j++ {
+			add(lOp{Op: "perp_open", U: 1 + r.Intn(4), Dir: 1, Amt: r.Decade(9, 10).String(), Lev: []string{"2", "3"}[r.Intn(2)]})
+		}
+		add(lOp{Op: "blocks", N: 1, DT: 3700})
+		add(lOp{Op: "exit", U: 0, Pool: 0, Dir: 0, Rel: []int{4, 3, 2}[r.Intn(3)]})
+		add(lOp{Op: "blocks", N: 1, DT: 5})
+		add(lOp{Op: "exit", U: 0, Pool: 0, Dir: 0, Rel: 4})
+		tail := lGenN(r, id, 8+r.Intn(8))
+		h.Ops = append(h.Ops, tail.Ops...)
+		return h
 	case 2:
 		// one account adds to the SAME locked commitment many times in a row (single-sided oracle-pool joins carry a one-hour
 		// lock; leveraged-LP top-ups consolidate into one position address) with nothing uncommitted in between: per-denom
@@ -94,6 +107,9 @@ func lScenario(r *Rng, id int) lHist {
 		add(lOp{Op: "perp_open", U: u1, Dir: big, Amt: r.Decade(8, 9).String(), Lev: []string{"2", "3", "5"}[r.Intn(3)]})
 		add(lOp{Op: "perp_open", U: u2, Dir: small, Amt: r.Decade(7, 8).String(), Lev: []string{"2", "3"}[r.Intn(2)]})
 		add(lOp{Op: "blocks", N: r.Pick(2, 3, 5), DT: r.Pick(60, 3700, 86400)})
+		// a third party asks for the liquidation of every position while they are healthy: interest and funding are settled, nothing closes
+		add(lOp{Op: "perp_close_positions", U: (u1 + 2) % 5, Idx: r.Intn(4), Dir: 0, N: 8, Rel: r.Intn(2)})
+		add(lOp{Op: "blocks", N: 1, DT: 5})
 		add(lOp{Op: "perp_open", U: u1, Dir: big, Amt: r.Decade(7, 9).String(), Lev: []string{"1.5", "2", "3"}[r.Intn(3)]})
 		add(lOp{Op: "blocks", N: 1, DT: r.Pick(5, 3700)})
 		add(lOp{Op: "perp_open", U: u1, Dir: big, Amt: r.Decade(6, 8).String(), Lev: "0"})
@@ -206,8 +222,10 @@ func lGenN(r *Rng, id int, n int) lHist {
 			h.Ops = append(h.Ops, lOp{Op: "perp_close_positions", U: u, Idx: r.Intn(4), Dir: r.Intn(3), N: r.Pick(1, 1, 2, 3, 8), Rel: r.Intn(2)})
 		case x < 88:
 			h.Ops = append(h.Ops, lOp{Op: "price", P: []string{"0.5", "0.8", "0.95", "1.05", "1.25", "2"}[r.Intn(6)]})
-		case x < 90:
+		case x < 89:
 			h.Ops = append(h.Ops, lOp{Op: "donate", U: u, Pool: r.Intn(2), Dir: r.Intn(3), Amt: amt()})
+		case x < 90:
+			h.Ops = append(h.Ops, lOp{Op: "unstake_lp", U: r.Intn(2) * u, Pool: r.Intn(2), Rel: r.Intn(6)}) // user 0 is the pool creator and holds shares
 		default:
 			h.Ops = append(h.Ops, lOp{Op: "blocks", N: r.Pick(1, 1, 2, 3), DT: r.Pick(5, 5, 60, 3700, 86400)})
 		}
@@ -355,6 +373,12 @@ func (x *lRun) exec(op lOp) (res TxResult, amt *big.Int) {
 			out = []string{USDC, ATOM}[op.Dir-1]
 		}
 		return w.Deliver(&ammtypes.MsgExitPool{Sender: u, PoolId: pool.PoolId, MinAmountsOut: sdk.Coins{}, ShareAmountIn: v, TokenOutDenom: out}), amt
+	case "unstake_lp": // MsgUnstake naming a pool share denom (only uelys / ueden / uedenb may be unstaked this way)
+		pool, _ := w.App.AmmKeeper.GetPool(w.QCtx(), x.poolID(op.Pool))
+		c := w.App.CommitmentKeeper.GetCommitments(w.QCtx(), m.Users[op.U%len(m.Users)])
+		v := relOf(op.Rel, c.GetCommittedAmountForDenom(pool.TotalShares.Denom))
+		amt = v.BigInt()
+		return w.Deliver(&ctypes.MsgUnstake{Creator: u, Amount: v, Asset: pool.TotalShares.Denom, ValidatorAddress: ""}), amt
 	case "bond":
 		v := bigOf(op.Amt)
 		amt = v.BigInt()
@@ -560,11 +584,27 @@ func (x *lRun) closePositions(op lOp) (res TxResult) {
 		// health recomputed on a throw-away context, with interest brought up to date the way the handler does
 		debt := w.App.StablestakeKeeper.UpdateInterestAndGetDebt(qc, p.GetPositionAddress())
 		_ = debt
-		hl, err := w.App.LeveragelpKeeper.GetPositionHealth(qc, p)
+		var hl, lpPrice sdkmath.LegacyDec
+		var err, lpErr error
+		func() {
+			defer func() {
+				if r := recover(); r != nil {
+					err = fmt.Errorf("panic: %v", r)
+				}
+			}()
+			hl, err = w.App.LeveragelpKeeper.GetPositionHealth(qc, p)
+		}()
 		before.health, before.healthErr = hl, err != nil
 		sf := w.App.LeveragelpKeeper.GetParams(qc).SafetyFactor
 		ammPool, _ := w.App.AmmKeeper.GetPool(qc, p.AmmPoolId)
-		lpPrice, lpErr := ammPool.LpTokenPrice(qc, w.App.OracleKeeper, w.App.AccountedPoolKeeper)
+		func() {
+			defer func() {
+				if r := recover(); r != nil {
+					lpErr = fmt.Errorf("panic: %v", r)
+				}
+			}()
+			lpPrice, lpErr = ammPool.LpTokenPrice(qc, w.App.OracleKeeper, w.App.AccountedPoolKeeper)
+		}()
 		req := &levtypes.PositionRequest{Address: p.Address, Id: p.Id}
 		// batch form: the message carries a LIST; the observed position first (Rel 0) or last (Rel 1), then its neighbours
 		reqs := []*levtypes.PositionRequest{req}
@@ -632,9 +672,27 @@ func (x *lRun) closePositions(op lOp) (res TxResult) {
 		}
 		settleErr = w.App.PerpetualKeeper.SettleFunding(qc, &mtp, &pool, ammPool)
 	}()
-	hl, herr := w.App.PerpetualKeeper.GetMTPHealth(qc, mtp, ammPool, USDC)
+	var hl, price sdkmath.LegacyDec
+	var herr, perr error
+	// the observer's own probes run on degenerate states too (emptied pools make the swap estimation overflow): a panic there
+	// is an unobservable health, not a harness failure
+	func() {
+		defer func() {
+			if r := recover(); r != nil {
+				herr = fmt.Errorf("panic: %v", r)
+			}
+		}()
+		hl, herr = w.App.PerpetualKeeper.GetMTPHealth(qc, mtp, ammPool, USDC)
+	}()
 	sf := w.App.PerpetualKeeper.GetParams(qc).SafetyFactor
-	price, perr := w.App.PerpetualKeeper.GetAssetPrice(qc, p.TradingAsset)
+	func() {
+		defer func() {
+			if r := recover(); r != nil {
+				perr = fmt.Errorf("panic: %v", r)
+			}
+		}()
+		price, perr = w.App.PerpetualKeeper.GetAssetPrice(qc, p.TradingAsset)
+	}()
 	req := perptypes.PositionRequest{Address: p.Address, Id: p.Id}
 	// batch form: the message carries a LIST; the observed position first (Rel 0) or last (Rel 1), then its neighbours
 	reqs := []perptypes.PositionRequest{req}
